@@ -987,6 +987,8 @@ func (t *trzszTransfer) sendFiles(sourceFiles []*sourceFile, progress progressCa
 		if err := t.sendFileMD5(digest, progress); err != nil {
 			return nil, err
 		}
+
+		file.Close() // don't keep every sent file open until the whole transfer ends
 	}
 
 	return remoteNames, nil
